@@ -269,7 +269,11 @@ class FakeSupGroup(object):
     def get_unstopped_processes(self):
         return [FakeProc(self.config.name + '_p')] if self.unstopped else []
 
+    raises = False
+
     def before_remove(self):
+        if self.raises:
+            raise ValueError('before_remove failed')
         self.removed = True
 
     def get_dispatchers(self):
@@ -291,7 +295,12 @@ class FakeSupGroupConfig(object):
     def after_setuid(self):
         pass
 
+    raises = False
+
     def make_group(self):
+        if self.raises:
+            # what FastCGIProcessGroup.__init__ does when its socket cannot be created
+            raise ValueError('Could not create FastCGI socket')
         return FakeSupGroup(self)
 
 
@@ -339,7 +348,8 @@ class SupOptions(FakeOptions):
 
 def run_sup_ops(ops):
     """ops: ('add', name) | ('remove', name, unstopped) | ('runforever',) |
-    ('pass', mood).  add/remove before 'runforever' are direct calls (as
+    ('pass', mood) | ('add_raises', name) (make_group() raises) | ('remove_raises', name)
+    (before_remove() of the stopped group raises).  add/remove before 'runforever' are direct calls (as
     Supervisor.run makes at start-up); after it they happen inside poll(),
     where the RPC interface would make them; each 'pass' is one pass of the
     real loop of the real runforever with options.mood set just before it.
@@ -356,6 +366,26 @@ def run_sup_ops(ops):
         log.append(('op',))
         if op[0] == 'add':
             r = sup.add_process_group(FakeSupGroupConfig(op[1]))
+        elif op[0] == 'add_raises':
+            cfg = FakeSupGroupConfig(op[1])
+            cfg.raises = True
+            try:
+                r = sup.add_process_group(cfg)
+            except ValueError:
+                r = 'Exception'
+        elif op[0] == 'remove_raises':
+            g = sup.process_groups.get(op[1])
+            if g is not None:
+                g.unstopped = False
+                g.raises = True
+            try:
+                r = sup.remove_process_group(op[1])
+            except KeyError:
+                r = 'KeyError'
+            except ValueError:
+                r = 'Exception'
+            if g is not None:
+                g.raises = False
         elif op[0] == 'remove':
             g = sup.process_groups.get(op[1])
             if g is not None:
@@ -726,5 +756,116 @@ def run_reject_history(pool_specs, ops):
         streams = dict((n, b''.join(d for _, d in o.written)) for n, (p, o) in pools.items())
         left = dict((n, [getattr(e, 'serial', None) for e in p.event_buffer]) for n, (p, o) in pools.items())
         return [(type(e).__name__, e.payload(), getattr(e, 'serial', None)) for e in emitted], streams, left
+    finally:
+        events.clear()
+
+
+# ------------------------------------------------------------------ PROCESS_COMMUNICATION through the real output dispatcher
+
+def run_capture(capmax, reads, channel='stdout', pname='worker', gname='grp', pid=3131):
+    """A real Subprocess with a real POutputDispatcher on `channel` whose capture
+    buffer holds capmax bytes; the child's output arrives in the given reads (the
+    caller puts the BEGIN / END tokens in them).  One real pool subscribed to
+    PROCESS_COMMUNICATION receives what is raised.
+
+    Returns [(class name, data bytes of the event, serial, pool serial, bytes on the
+    listener's stdin)] for every PROCESS_COMMUNICATION event raised."""
+    from supervisor import loggers
+    events.clear()
+    process.GlobalSerial.serial = -1
+    try:
+        pool, popts = make_pool('supervisor', 'pool', pool_events=[events.ProcessCommunicationEvent])
+        opts = AnsweringOptions()
+        opts.getLogger = loggers.getLogger
+        opts.loglevel = loggers.LevelsByName.INFO
+        opts.strip_ansi = False
+        cfg = FakePConfig(opts, pname)
+        for ch in ('stdout', 'stderr'):
+            setattr(cfg, ch + '_logfile', None)
+            setattr(cfg, ch + '_logfile_maxbytes', 0)
+            setattr(cfg, ch + '_logfile_backups', 0)
+            setattr(cfg, ch + '_syslog', False)
+            setattr(cfg, ch + '_events_enabled', False)
+            setattr(cfg, ch + '_capture_maxbytes', capmax if ch == channel else 0)
+        proc = cfg.make_process(FakeGroup(gname))
+        proc.pid = pid
+        etype = events.ProcessCommunicationStdoutEvent if channel == 'stdout' else events.ProcessCommunicationStderrEvent
+        disp = dispatchers.POutputDispatcher(proc, etype, 9)
+        got = []
+        events.subscribe(events.ProcessCommunicationEvent, got.append)
+        out = []
+        for r in reads:
+            opts.pending[9] = r
+            n = len(got)
+            disp.handle_read_event()
+            for e in got[n:]:
+                stream = drain_pool(pool, popts)
+                out.append((type(e).__name__, e.data, getattr(e, 'serial', None),
+                            getattr(e, 'pool_serials', {}).get('pool'), stream))
+        return out
+    finally:
+        events.clear()
+
+
+# ------------------------------------------------------------------ one pool, several listeners that answer, misbehave and die
+
+def run_listener_history(nlisteners, ops):
+    """One real pool subscribed to REMOTE_COMMUNICATION with `nlisteners` real
+    listener Subprocesses (real PInputDispatcher + PEventListenerDispatcher each).
+    ops: ('emit',) | ('dispatch',) | ('ready', i) | ('ok', i) | ('fail', i) |
+         ('garbage', i)  - a malformed result line while BUSY |
+         ('reap', i)     - the real Subprocess.finish(pid, 0) of listener i
+    Returns (per op: [(listener index, bytes written to its stdin during the op)],
+             serials left in the pool's buffer)."""
+    from supervisor import rpcinterface
+    events.clear()
+    process.GlobalSerial.serial = -1
+    try:
+        opts = AnsweringOptions('supervisor')
+        cfg = FakePoolConfig(opts, 'pool', [events.RemoteCommunicationEvent], nlisteners=nlisteners)
+        cfg.result_handler = dispatchers.default_handler
+        for pc in cfg.process_configs:
+            pc.stdout_logfile = None
+        pool = process.EventListenerPool(cfg)
+        procs = list(pool.processes.values())
+        fds = {}
+        for k, proc in enumerate(procs):
+            proc.state = ProcessStates.RUNNING
+            proc.pid = 5000 + k
+            proc.laststart = 1.0
+            fin, fout = 100 + 2 * k, 101 + 2 * k
+            fds[k] = (fin, fout)
+            proc.pipes = {'stdin': fin, 'stdout': fout}
+            proc.dispatchers = {fin: dispatchers.PInputDispatcher(proc, 'stdin', fin),
+                                fout: dispatchers.PEventListenerDispatcher(proc, 'stdout', fout)}
+        sup = supervisord.Supervisor(FakeOptions())
+        iface = rpcinterface.SupervisorNamespaceRPCInterface(sup)
+        out = []
+        nem = 0
+        for op in ops:
+            before = len(opts.written)
+            k = op[0]
+            if k == 'emit':
+                iface.sendRemoteCommEvent('t', 'event %d' % nem)
+                nem += 1
+            elif k == 'dispatch':
+                with patched_time(1000.0):
+                    pool.dispatch()
+            elif k in ('ready', 'ok', 'fail', 'garbage'):
+                i = op[1]
+                data = {'ready': b'READY\n', 'ok': b'RESULT 2\nOK', 'fail': b'RESULT 4\nFAIL', 'garbage': b'RESLT two\n'}[k]
+                opts.pending[fds[i][1]] = data
+                procs[i].dispatchers[fds[i][1]].handle_read_event()
+            elif k == 'reap':
+                with patched_time(5000.0):
+                    procs[op[1]].finish(procs[op[1]].pid, 0)
+            else:
+                raise ValueError(op)
+            sends = []
+            for fd, data in opts.written[before:]:
+                idx = [j for j in fds if fds[j][0] == fd][0]
+                sends.append((idx, data))
+            out.append(sends)
+        return out, [getattr(e, 'serial', None) for e in pool.event_buffer]
     finally:
         events.clear()
